@@ -1,0 +1,190 @@
+//go:build verif
+
+package geom
+
+import "fmt"
+
+// VerifOverlayStats describes the shape of an overlay (for monitor evidence).
+type VerifOverlayStats struct {
+	Vertices  int
+	HalfEdges int
+	Faces     int
+	MaxDegree int
+}
+
+// VerifOverlayInvariants builds the overlay of a and b exactly as the set
+// operations and Relate do and checks structural invariants that their
+// results cannot show directly. It exists only under the verif build tag and
+// is used by external runtime monitors. Both operands must be non-empty or
+// empty in the same way the callers of newDCELFromGeometries allow.
+func VerifOverlayInvariants(a, b Geometry) (violations []string, stats VerifOverlayStats) {
+	d := newDCELFromGeometries(a, b)
+	bad := func(format string, args ...interface{}) {
+		if len(violations) < 20 {
+			violations = append(violations, fmt.Sprintf(format, args...))
+		}
+	}
+	stats.Vertices = len(d.vertices)
+	stats.HalfEdges = len(d.halfEdges)
+	stats.Faces = len(d.faces)
+
+	for key, e := range d.halfEdges {
+		if e.twin == nil || e.next == nil || e.prev == nil || e.origin == nil || e.incident == nil {
+			bad("half-edge %v has a nil link", key)
+			continue
+		}
+		if e.twin.twin != e {
+			bad("half-edge %v: twin.twin != e", key)
+		}
+		if e.next.prev != e {
+			bad("half-edge %v: next.prev != e", key)
+		}
+		if e.prev.next != e {
+			bad("half-edge %v: prev.next != e", key)
+		}
+		if e.twin.origin != e.next.origin {
+			bad("half-edge %v: twin.origin != next.origin", key)
+		}
+		n := e.seq.Length()
+		if n < 2 {
+			bad("half-edge %v: sequence has %d points", key, n)
+			continue
+		}
+		if e.seq.GetXY(0) != e.origin.coords {
+			bad("half-edge %v: seq start %v != origin %v", key, e.seq.GetXY(0), e.origin.coords)
+		}
+		if e.seq.GetXY(n-1) != e.twin.origin.coords {
+			bad("half-edge %v: seq end %v != twin origin %v", key, e.seq.GetXY(n-1), e.twin.origin.coords)
+		}
+		if tn := e.twin.seq.Length(); tn != n {
+			bad("half-edge %v: twin seq has different length", key)
+		} else {
+			for i := 0; i < n; i++ {
+				if e.seq.GetXY(i) != e.twin.seq.GetXY(n-1-i) {
+					bad("half-edge %v: twin seq is not the reversal", key)
+					break
+				}
+			}
+		}
+		if _, ok := e.origin.incidents[e]; !ok {
+			bad("half-edge %v: missing from origin.incidents", key)
+		}
+		for op := 0; op < 2; op++ {
+			if e.srcEdge[op] && !e.inSet[op] {
+				bad("half-edge %v: srcEdge[%d] but not inSet", key, op)
+			}
+			if e.inSet[op] != e.twin.inSet[op] {
+				bad("half-edge %v: inSet[%d] differs from twin", key, op)
+			}
+			if e.inSet[op] && (!e.origin.inSet[op] || !e.twin.origin.inSet[op]) {
+				bad("half-edge %v: inSet[%d] but an endpoint is not", key, op)
+			}
+			if e.incident.inSet[op] && !e.inSet[op] {
+				bad("half-edge %v: incident face inSet[%d] but edge is not", key, op)
+			}
+		}
+	}
+
+	for xy, v := range d.vertices {
+		if v.coords != xy {
+			bad("vertex %v stored under key %v", v.coords, xy)
+		}
+		deg := len(v.incidents)
+		if deg > stats.MaxDegree {
+			stats.MaxDegree = deg
+		}
+		if deg == 0 {
+			continue
+		}
+		var start *halfEdgeRecord
+		for e := range v.incidents {
+			if e.origin != v {
+				bad("vertex %v: incident edge has another origin", xy)
+			}
+			if start == nil {
+				start = e
+			}
+		}
+		// Walking e -> e.prev.twin visits the outgoing edges in radial order;
+		// it must visit every incident edge exactly once before returning.
+		seen := 0
+		descents := 0
+		e := start
+		for {
+			if e == nil || e.prev == nil || e.prev.twin == nil {
+				break
+			}
+			nxt := e.prev.twin
+			seen++
+			if seen > deg {
+				break
+			}
+			if deg > 2 && e.seq.Length() >= 2 && nxt.seq.Length() >= 2 {
+				di := e.seq.GetXY(1).Sub(e.seq.GetXY(0))
+				dj := nxt.seq.GetXY(1).Sub(nxt.seq.GetXY(0))
+				if !radialLess(di, dj) {
+					descents++
+				}
+			}
+			e = nxt
+			if e == start {
+				break
+			}
+		}
+		if e != start || seen != deg {
+			bad("vertex %v: radial orbit visits %d of %d incident edges", xy, seen, deg)
+		} else if descents > 1 {
+			bad("vertex %v: incident edges not in radial order (%d descents)", xy, descents)
+		}
+	}
+
+	if len(d.halfEdges) > 0 {
+		owned := make(map[*halfEdgeRecord]*faceRecord, len(d.halfEdges))
+		for fi, f := range d.faces {
+			if f.cycle == nil {
+				bad("face %d has no cycle", fi)
+				continue
+			}
+			steps := 0
+			e := f.cycle
+			for {
+				if e == nil {
+					bad("face %d: nil edge in cycle", fi)
+					break
+				}
+				if other, ok := owned[e]; ok {
+					if other != f {
+						bad("face %d: edge also belongs to another face cycle", fi)
+					} else {
+						bad("face %d: cycle revisits an edge before closing", fi)
+					}
+					break
+				}
+				owned[e] = f
+				if e.incident != f {
+					bad("face %d: edge on cycle has a different incident face", fi)
+				}
+				steps++
+				if steps > len(d.halfEdges) {
+					bad("face %d: cycle does not close", fi)
+					break
+				}
+				e = e.next
+				if e == f.cycle {
+					break
+				}
+			}
+		}
+		if len(owned) != len(d.halfEdges) {
+			bad("%d of %d half-edges lie on a face cycle", len(owned), len(d.halfEdges))
+		}
+		if len(violations) == 0 {
+			// The ghost edges connect every component, so Euler's formula
+			// for a connected planar graph applies.
+			if v, e, f := len(d.vertices), len(d.halfEdges)/2, len(d.faces); v-e+f != 2 {
+				bad("Euler: V-E+F = %d-%d+%d = %d, want 2", v, e, f, v-e+f)
+			}
+		}
+	}
+	return violations, stats
+}
